@@ -19,7 +19,8 @@ from pyvc.bounded import bounded_unit
 LEVEL = "exploration"
 FE = "osaca/frontend.py"
 OS = "osaca/osaca.py"
-TRUSTED = ["bounded harness bounded/c13_report.py (independent table parser)", "pyvc for the small warning-text functions"]
+TRUSTED = ["bounded harness bounded/c13_report.py (independent table parser)",
+           "pyvc symbolic semantics; opaque text: strings built from symbolic values keep their pieces / format arguments, everything depending on their characters (len, in, split, slices) is unconstrained; z3 5.1.0"]
 ASSUMPTIONS = ["decisive part is bounded: corpus = shipped examples/test kernels + generated kernels x models x options (see harness docstring)",
                "character-level rendering (str.format widths, _get_port_pressure's cell text) is outside the prover's subset: the proved units state WHICH value is handed to WHICH cell/row (format arguments and helper arguments), the printed characters are compared by the bounded unit",
                "combined_view / loopcarried_dependencies: kernels of 2 lines, 0-3 dependencies (all numbers symbolic) - label Pb"]
